@@ -84,7 +84,9 @@ func vC08Reduce[T vOrdNum]() {
 		}
 	})
 	vReach("C08.Reduce")
-	vAssert(!pan, "no-panic")
+	// column-major finding (C16): reductions over a column-major operand panic or fold the wrong lanes
+	kfF := vCfgStr("la") == "F"
+	vAssertKF(!pan, "no-panic", "KF-C16-reduce", kfF)
 	if pan {
 		return
 	}
@@ -107,7 +109,7 @@ func vC08Reduce[T vOrdNum]() {
 	if len(rshape) == 0 {
 		same = res.IsScalar() || vProd(got) == 1
 	}
-	vAssert(same, "shape")
+	vAssertKF(same, "shape", "KF-C16-reduce", kfF)
 	if !same {
 		return
 	}
@@ -136,7 +138,7 @@ func vC08Reduce[T vOrdNum]() {
 	})
 	vals := vSnapshot[T](res)
 	for k := 0; k < n; k++ {
-		vAssert(vals[k] == acc[k], "fold")
+		vAssertKF(vals[k] == acc[k], "fold", "KF-C16-reduce", kfF)
 	}
 	vC08Unchanged(a, aw, "operand-unchanged")
 }
@@ -217,7 +219,9 @@ func vC08Arg[T vOrdNum]() {
 			return
 		}
 		n := len(aw)
+		vC08ArgF = vCfgStr("la") == "F"
 		vC08ArgLane(aw, idx, better)
+		vC08ArgF = false
 		_ = n
 		vC08Unchanged(a, aw, "operand-unchanged")
 		return
@@ -353,17 +357,20 @@ func vC08ArgLane[T vOrdNum](lane []T, idx int, better func(x, y T) bool) {
 		infs = infs + vIte(isExt, 1, 0)
 	}
 	region := infs >= 2
-	vAssertKF(idx == bi, "first-extreme-index", "KF-C08-arginf", region)
+	// column-major finding (C16): the all-axes arg-reduction of a column-major tensor indexes raw (column-major) storage
+	vAssertKF2(idx == bi, "first-extreme-index", "KF-C08-arginf", region, "KF-C16-argflat", vC08ArgF)
 	if n <= 4 {
 		vAssert(vAnd(idx >= 0, idx < n), "index-in-range")
 		ci := vIte(vAnd(idx >= 0, idx < n), idx, 0)
 		bv := vSel(lane, ci)
 		for j := 0; j < n; j++ {
-			vAssert(!better(lane[j], bv), "extreme")
-			vAssertKF(vImplies(j < idx, better(bv, lane[j])), "first-extreme", "KF-C08-arginf", region)
+			vAssertKF(!better(lane[j], bv), "extreme", "KF-C16-argflat", vC08ArgF)
+			vAssertKF2(vImplies(j < idx, better(bv, lane[j])), "first-extreme", "KF-C08-arginf", region, "KF-C16-argflat", vC08ArgF)
 		}
 	}
 }
+
+var vC08ArgF bool
 
 func vIsInfT[T vOrdNum](x T) bool {
 	switch v := any(x).(type) {
